@@ -45,6 +45,17 @@ type Spec struct {
 	NewID   string   `json:"newid,omitempty"`
 	IntID   string   `json:"intid,omitempty"`
 	IntMbox uint64   `json:"intmb,omitempty"`
+	Lit     string   `json:"lit,omitempty"`  // explicit message bytes (overrides Key)
+	Date    string   `json:"date,omitempty"` // internal date, RFC 3339
+}
+
+func (s Spec) date() time.Time {
+	if s.Date != "" {
+		if t, err := time.Parse(time.RFC3339, s.Date); err == nil {
+			return t
+		}
+	}
+	return time.Date(2006, 1, 2, 12, 0, 0, 0, time.UTC)
 }
 
 func (s Spec) String() string {
@@ -403,7 +414,9 @@ func (c *Conn) Build(s Spec) (imap.Update, error) {
 		var ms []*imap.MessageCreated
 		for i, id := range ids {
 			var lit []byte
-			if i < len(keys) && keys[i] != "" {
+			if s.Lit != "" {
+				lit = []byte(s.Lit)
+			} else if i < len(keys) && keys[i] != "" {
 				lit = MakeLiteral(keys[i])
 			} else if rm, ok := c.Messages[imap.MessageID(id)]; ok {
 				lit = rm.Literal
@@ -415,7 +428,7 @@ func (c *Conn) Build(s Spec) (imap.Update, error) {
 				return nil, err
 			}
 			ms = append(ms, &imap.MessageCreated{
-				Message:       imap.Message{ID: imap.MessageID(id), Flags: fl.Clone(), Date: time.Date(2006, 1, 2, 12, 0, 0, 0, time.UTC)},
+				Message:       imap.Message{ID: imap.MessageID(id), Flags: fl.Clone(), Date: s.date()},
 				Literal:       lit,
 				MailboxIDs:    mbs,
 				ParsedMessage: pm,
@@ -436,7 +449,9 @@ func (c *Conn) Build(s Spec) (imap.Update, error) {
 		return imap.NewMessageIDChanged(iid, imap.MessageID(s.NewID)), nil
 	case "MessageUpdated":
 		var lit []byte
-		if s.Key != "" {
+		if s.Lit != "" {
+			lit = []byte(s.Lit)
+		} else if s.Key != "" {
 			lit = MakeLiteral(s.Key)
 		} else if rm, ok := c.Messages[imap.MessageID(s.Msg)]; ok {
 			lit = rm.Literal
@@ -447,7 +462,7 @@ func (c *Conn) Build(s Spec) (imap.Update, error) {
 		if err != nil {
 			return nil, err
 		}
-		return imap.NewMessageUpdated(imap.Message{ID: imap.MessageID(s.Msg), Flags: fl, Date: time.Date(2006, 1, 2, 12, 0, 0, 0, time.UTC)}, lit, mbs, pm, s.Allow), nil
+		return imap.NewMessageUpdated(imap.Message{ID: imap.MessageID(s.Msg), Flags: fl, Date: s.date()}, lit, mbs, pm, s.Allow), nil
 	case "UIDValidityBumped":
 		return imap.NewUIDValidityBumped(), nil
 	case "Noop":
@@ -476,7 +491,9 @@ func (c *Conn) NoteRemote(s Spec) {
 		}
 		for i, id := range ids {
 			lit := MakeLiteral(id)
-			if i < len(keys) && keys[i] != "" {
+			if s.Lit != "" {
+				lit = []byte(s.Lit)
+			} else if i < len(keys) && keys[i] != "" {
 				lit = MakeLiteral(keys[i])
 			}
 			rm, ok := c.Messages[imap.MessageID(id)]
